@@ -22,4 +22,13 @@ Section Kak.
   Definition kak_half2 (uz uzc : K) : matrix :=
     mprod O 4 [q_CXr O; on1 O (q_sxdg O); on1 O (q_rz O (uzc * w8 O) (uz * w8c O)); q_CX O].
   Definition kak_core (ux uxc uy uyc uz uzc : K) : matrix := mmul O (kak_half2 uz uzc) (kak_half1 ux uxc uy uyc).
+  (* version 3.0 (stdgates.inc has no sxdg): X**-0.5 is emitted as rx(pi*-0.5), half-angle unit exp(-i pi/4);
+     cx q1,q0; rx(pi*-0.5) q1; rz(pi c) q1; cx q0,q1   read with stdgates.inc *)
+  Definition kak_half2_v3 (uz uzc : K) : matrix :=
+    mprod O 4 [body_unitary O 2 [(qmat O true QCx, [1; 0])]; on1 O (qmat O true (QRx (w8c O) (w8 O)));
+               on1 O (qmat O true (QRz (uzc * w8 O) (uz * w8c O))); qmat O true QCx].
+  Definition kak_half1_v3 (ux uxc uy uyc : K) : matrix :=
+    mprod O 4 [on0 O (qmat O true QSx); qmat O true QCx; on0 O (qmat O true (QRx (uxc * w8 O) (ux * w8c O)));
+               on1 O (qmat O true (QRy (uyc * w8 O) (uy * w8c O)))].
+  Definition kak_core_v3 (ux uxc uy uyc uz uzc : K) : matrix := mmul O (kak_half2_v3 uz uzc) (kak_half1_v3 ux uxc uy uyc).
 End Kak.
